@@ -37,7 +37,7 @@ class C10(Check):
     technique = "generated archives (py7zr sessions incl. appends, reference-written layouts); listing interfaces compared with the model, the reference reader's structure and a later extraction"
     rule = ("archive = py7zr history (1..3 sessions, any chain/header/password, files, empty files, dirs, links) or reference-written "
             "layout (any C06 layout). Checked before any extraction on a path-opened object: getnames == namelist == list() names == files "
-            "names == model order; per member uncompressed == len(bytes), crc32 (when reported) == CRC32(bytes), is_directory <=> directory; "
+            "names == model order; per member uncompressed == len(bytes), crc32 (when reported) == CRC32(bytes) and reported whenever the archive records one for the member (per the reference reader), is_directory <=> directory; "
             "getinfo(n) and getinfo(n+'/') find every name, absent names raise KeyError; archiveinfo(): uncompressed == sum of sizes, blocks == "
             "number of folders, solid <=> some folder holds > 1 stream, method_names == display names of the coders present (as sets); "
             "needs_password() <=> an AES coder is present or a password was supplied. Non-trivial: >= 2 members and (>= 2 folders or an empty "
@@ -80,7 +80,7 @@ class C10(Check):
                 pw = "pw" if any(x["id"] == G.F_AES for x in f) else None
                 yield {"src": "py", "history": {"sessions": [{"filters": f, "entries": [
                     {"how": "writestr", "data": ["gen", "text", 120, i], "mode": 0o644, "mtime_ns": 10 ** 18, "name": "m1"},
-                    {"how": "writestr", "data": ["hex", "00ff"], "mode": 0o644, "mtime_ns": 10 ** 18, "name": "m2"}]}],
+                    {"how": "writestr", "data": ["hex", "9d0ad96d"], "mode": 0o644, "mtime_ns": 10 ** 18, "name": "m2"}]}],
                     "header": "encoded", "target": "path", "password": pw}, "absent": ["m3", "m1x"], "supply_pw": bool(pw)}
 
     def execute(self, case, env):
@@ -126,7 +126,7 @@ class C10(Check):
             if P.errors or RR.hard_violations(P):
                 out.skipped = "not-wellformed(C07)"
                 return out
-            members = [{"name": m["name"].replace("\\", "/"), "kind": m["kind"], "data": m["data"]} for m in P.members]
+            members = [{"name": m["name"].replace("\\", "/"), "kind": m["kind"], "data": m["data"], "stored_crc": m.get("crc")} for m in P.members]
             names = [m["name"] for m in members]
             coder_ids = {c["m"] for f in P.folders for c in f["coders"]}
             has_aes = RC.M_AES in coder_ids
@@ -167,6 +167,10 @@ class C10(Check):
                     for api, got in (("files.crc32", f.crc32), ("list.crc32", li.crc32)):
                         if got is not None and m["kind"] in ("file", "link") and got != crc(m["data"]):
                             out.violate(dict(sig, kind="crc-differs", api=api), observed={"name": m["name"], "got": got}, expected=crc(m["data"]))
+                        # a CRC the archive records for the member (also the value 0) is reported, not dropped
+                        if got is None and m["kind"] in ("file", "link") and m["stored_crc"] is not None:
+                            out.violate(dict(sig, kind="stored-crc-not-reported", api=api, zero=m["stored_crc"] == 0, empty=len(m["data"]) == 0),
+                                        observed={"name": m["name"], "got": None}, expected=m["stored_crc"])
                     for api, got in (("files.is_directory", f.is_directory), ("list.is_directory", li.is_directory)):
                         if bool(got) != (m["kind"] == "dir"):
                             out.violate(dict(sig, kind="dirflag-differs", api=api, member=m["kind"]), observed={"name": m["name"], "got": got}, expected=m["kind"] == "dir")
